@@ -75,7 +75,12 @@ var (
 	Local = time.Local
 )
 
-func Now() Time { return time.Now().Add(vos.NowOffset()) }
+func Now() Time {
+	if t, ok := vos.VirtualNow(); ok {
+		return t
+	}
+	return time.Now()
+}
 
 func Sleep(d Duration) {
 	if vos.SleepHook(d) {
